@@ -1,6 +1,7 @@
 # edited by hand as checks land
 _T = "Every listed obligation is decided by z3 over all integer values of its symbolic inputs within the stated skeleton bound (a bounded, not an unbounded, claim); "
 CLAIMED = {
+ "C05": ("DESIGN.md#c05", _T + "populate offers exactly the source coordinates with live references; post-loop content equals the overlay model; nothing left behind; source untouched; rank lists consistent inside and after the loops."),
  "C01": ("DESIGN.md#c01", _T + "well-formedness after every public mutator from an arbitrary well-formed pre-state (inductive step) and short histories; order-rejections leave the tree unchanged."),
  "C02": ("DESIGN.md#c02", _T + "rank lists mirror the tree after every listed mutation, constructor, transform and read-only co-iteration."),
  "C03": ("DESIGN.md#c03", _T + "reads, reference writes, prefix reads, positions and start_pos shortcuts against an association-list model."),
